@@ -39,6 +39,15 @@ def scenarios(t):
                 sc.append({"id": "encbig%d" % i, "kind": "write", "what": "encode", "fe": fe, "declared": False, "start": 0, "big": big,
                            "explicit_finalize": explicit, "max_n": 60,
                            "opts": {"block_size": bs, "padding": -1, "seektable": "none" if i % 2 else {"frames": 1}, "max_lpc": -1}})
+    # the channel-count arms of the frame encoder: mono, and 3 to 8 independent channels (the scenarios above are stereo)
+    for fe in ("sample", "channel"):
+        for ch, bps in ((1, 16), (3, 16), (5, 8), (8, 24)):
+            i += 1
+            sc.append({"id": "encmulti%d" % i, "kind": "write", "what": "encode-multi", "fe": fe, "ch": ch, "bps": bps, "declared": bool(i % 2),
+                       "signal": "noise" if i % 3 == 0 else "walk",
+                       "opts": {"block_size": 16, "padding": 40 if (i % 3) else -1, "seektable": "none" if i % 2 else {"frames": 1}}})
+    sc.append({"id": "stream-multi", "kind": "write", "what": "stream-multi"})
+    sc.append({"id": "stream-multi-fast", "kind": "write", "what": "stream-multi", "fast": True})
     sc.append({"id": "stream", "kind": "write", "what": "stream"})
     sc.append({"id": "write_blocks", "kind": "write", "what": "write_blocks"})
     for e in ("equal", "grow", "shrink", "rebuild", "rebuild-sinkfault"):
